@@ -133,6 +133,54 @@ def my_mutate_tree(rng, t, kind):
     return kind, t
 
 
+UNION_KINDS = ["u_attr", "u_text_only", "u_empty", "u_swap", "u_xsi_type", "u_nil", "u_extra_child", "u_drop_child", "u_corrupt_leaf",
+               "u_tail", "u_dup"]
+
+
+def union_fault_stream(rng, tree, union_qnames, per_kind=1):
+    """faults aimed at the elements a UnionNode binds (their qnames are given): the content
+    decides which candidate wins, so every way of changing it is tried on every such element"""
+    base_paths = [p for p, n in G.tree_paths(tree) if n["q"] in union_qnames]
+    if not base_paths:
+        return
+    for _ in range(per_kind):
+        for kind in UNION_KINDS:
+            t = copy.deepcopy(tree)
+            path = rng.choice(base_paths)
+            node = G.tree_at(t, path)
+            others = [G.tree_at(t, p) for p in base_paths if p != path]
+            if kind == "u_attr":
+                node["a"].append([rng.choice(["zzz", "{urn:a}zz", "id"]), rng.choice(["v", "", "1"])])
+            elif kind == "u_text_only":
+                node["c"], node["t"] = [], rng.choice(["12", "true", "abc", "", " 7 ", "0", "false", None, "1.5", "x y"])
+                if rng.random() < 0.6:
+                    node["a"] = []
+            elif kind == "u_empty":
+                node["c"], node["t"], node["a"] = [], None, []
+            elif kind == "u_swap" and others:
+                o = rng.choice(others)
+                node["c"], node["t"], node["a"] = copy.deepcopy(o["c"]), o["t"], copy.deepcopy(o["a"])
+            elif kind == "u_xsi_type":
+                node["a"].append(["{%s}type" % XSI, rng.choice(["Leaf0", "Leaf1", "Mid0", "Root", "Leaf0Ext", "xs:int", "zz:T", "", "{urn:a}Leaf0"])])
+            elif kind == "u_nil":
+                node["a"].append(["{%s}nil" % XSI, rng.choice(["true", "false"])])
+            elif kind == "u_extra_child":
+                node["c"].insert(rng.randint(0, len(node["c"])), copy.deepcopy(rng.choice(G.UNKNOWN_SUBTREES)))
+            elif kind == "u_drop_child" and node["c"]:
+                del node["c"][rng.randrange(len(node["c"]))]
+            elif kind == "u_corrupt_leaf":
+                leaves = [n for _, n in G.tree_paths(node) if not n["c"]]
+                rng.choice(leaves)["t"] = rng.choice(["zzz", "", "12x", "truee", None, "1 2", "7"])
+            elif kind == "u_tail" and path:
+                node["tl"] = rng.choice(["tail", " ", "7"])
+            elif kind == "u_dup" and path:
+                parent = G.tree_at(t, path[:-1])
+                parent["c"].insert(path[-1], copy.deepcopy(node))
+            else:
+                continue
+            yield kind, t
+
+
 def tree_fault_stream(rng, tree, per_kind=1):
     """every fault kind (the shared ones of bindgen.mutate_tree and the ones above) on one document"""
     shared = ["inject", "inject_known", "unknown_attr", "xsi_attr", "delete", "duplicate", "retag", "reorder", "corrupt_text",
